@@ -145,6 +145,10 @@ let handle () =
   | "sortapply" ->
     let s = read_sig () in
     string_of_res (apply_params s (sort_params s))
+  | "rolecons" -> let ss = read_sigs () in
+    if role_consistent (List.map pl ss) then "T" else "F"
+  | "aligned" -> let ss = read_sigs () in
+    if all_aligned (List.map pl ss) then "T" else "F"
   | "valid" -> let s = read_sig () in if valid_sig (pl s) then "T" else "F"
   | "accepts" ->
     let s = read_sig () in let c = read_call () in
